@@ -33,6 +33,10 @@ HISTORIES = [
     ['parent+child(child-first)', 'metric(N1,1)'],
     ['metric(N1,1)', 'create-metric', 'metric(N1,2)'],
     ['patient-new(A)', 'patient-new(B)', 'patient-disassociate'],
+    # a report with an update part (indexed attribute) followed by a create part: when the preceding delete was lost,
+    # the create part is rejected in the middle of the report
+    ['create-metric', 'delete(NEW)', 'update-cond-signaled+create-metric'],
+    ['create-metric', 'delete(NEW)', 'update-alert-source+create-metric'],
 ]
 MAJOR = ('mdib_lock', '_tr_lock', 'buffered_notifications')
 
